@@ -17,7 +17,8 @@ RULE = ("Batches for the five conversions in bionumpy.io.strops. Integers: the c
         "join/split inverse element by element; str_to_float within 8 ulp of float(text); str_to_float(float_to_strings(x)) == x; and "
         "independence: the result for a row is bit-identical in the full batch, alone, and in a permuted batch. The same integer and float texts are also "
         "read as the columns of a tab-separated file whose columns are all numeric (1..3 columns, the first value often narrower than a later one, with and "
-        "without a header line, LF and CRLF), through the delimited-buffer reader, with the same oracles. "
+        "without a header line, LF and CRLF), through the delimited-buffer reader, with the same oracles; and the integers are formatted as the start and the "
+        "(optional) score column of a BED6 table handed to the file writer. "
         "Non-trivial: a batch mixing at least two widths, or a value within 2 of a power of ten.")
 ASSUMPTIONS = [
     "A leading '+' on float text and an upper-case 'E' are a tolerant class: equals float(text) or raises (the parser documents neither).",
@@ -25,7 +26,7 @@ ASSUMPTIONS = [
     "An empty batch may raise or return an empty result.",
 ]
 REQUIRED_CLASSES = ["i2s", "s2i", "ilist", "s2f", "f2s2f", "mixed-widths", "near-power-of-ten", "negative", "leading-zeros", "plus-sign",
-                    "scientific", "missing-placeholder", "file-column", "file-column-first-value-narrower-than-widest", "file-column-signed"]
+                    "scientific", "missing-placeholder", "file-column", "file-column-first-value-narrower-than-widest", "file-column-signed", "int-column-of-a-written-file"]
 BOUNDS = {"quick": "boundary set complete (singly and in 40 mixed batches); 2500 Hypothesis batches per conversion (about 20 000 values each); 1250 numeric-column files, each read whole, reversed, first row alone and without its first row",
           "thorough": "boundary set complete; 60 000 batches per conversion (about 500 000 values each); 30 000 numeric-column files"}
 BUDGET_S = {"quick": 200, "thorough": 1500}
@@ -43,7 +44,9 @@ def classify(case):
     cl = [k]
     vals = case.get("values") or []
     texts = case.get("texts") or []
-    if k == "i2s":
+    if k in ("i2s", "i2s_file"):
+        if k == "i2s_file":
+            cl.append("int-column-of-a-written-file")
         widths = {len(str(abs(v))) for v in vals}
         if len(widths) > 1:
             cl.append("mixed-widths")
@@ -272,6 +275,28 @@ def check(case, stats=None):
                             break
                 if out:
                     break
+        elif k == "i2s_file":
+            # the same integers formatted as columns of a written file: a plain int column (start) and an optional one (score) of a BED6 table
+            import io as _io
+            import bionumpy as bnp
+            from bionumpy.datatypes import Bed6
+            from bionumpy.io.delimited_buffers import Bed6Buffer
+            from bionumpy.io.parser import NpBufferedWriter
+            vals = case["values"]
+            n = len(vals)
+            for which in ("score", "start"):
+                cols = {"score": np.zeros(n, dtype=np.int64), "start": np.zeros(n, dtype=np.int64)}
+                cols[which] = np.array(vals, dtype=np.int64)
+                t = Bed6(["c"] * n, cols["start"], np.ones(n, dtype=np.int64), ["n"] * n, cols["score"], "+" * n)
+                buf = _io.BytesIO()
+                NpBufferedWriter(buf, Bed6Buffer).write(t)
+                lines = buf.getvalue().decode().split("\n")[:n]
+                got = [l.split("\t")[4 if which == "score" else 1] for l in lines]
+                want = [str(v) for v in vals]
+                if got != want:
+                    j = next(i for i, (g, w_) in enumerate(zip(got, want)) if g != w_)
+                    out.append(Failure(f"C18:int-to-text-in-written-file:{which}-column", {"value": vals[j], "text": got[j]}))
+                    break
         elif k == "filecols":
             # the same conversions as a text file's numeric columns are parsed (the fixed-width digit matrix of a delimited column)
             rows, types = case["rows"], case["types"]
@@ -398,7 +423,7 @@ doubles = st.one_of(st.floats(allow_nan=False, allow_infinity=False, width=64), 
 @st.composite
 def batch_case(draw, kind):
     n = draw(st.one_of(st.integers(1, 12), st.integers(2, 12)))
-    if kind == "i2s":
+    if kind in ("i2s", "i2s_file"):
         return {"kind": kind, "values": draw(st.lists(ints64, min_size=n, max_size=n))}
     if kind == "s2i":
         return {"kind": kind, "texts": draw(st.lists(int_text(), min_size=n, max_size=n))}
@@ -437,7 +462,7 @@ def task_kind(stats, known_open, kind, n, seed):
     core.run_hypothesis(sys.modules[__name__], batch_case(kind), stats, known_open, max_examples=n, seed=seed)
 
 
-KINDS = ["i2s", "s2i", "s2i_missing", "ilist", "s2f", "f2s2f", "filecols"]
+KINDS = ["i2s", "s2i", "s2i_missing", "ilist", "s2f", "f2s2f", "filecols", "i2s_file"]
 
 
 def tasks(tier, seed):
@@ -445,5 +470,5 @@ def tasks(tier, seed):
     out = [("task_boundary", {})]
     for i, k in enumerate(KINDS):
         for j in range(reps):
-            out.append(("task_kind", dict(kind=k, n=n // 2 if k == "filecols" else n, seed=seed * 1000 + i * 10 + j)))
+            out.append(("task_kind", dict(kind=k, n=n // 2 if k in ("filecols", "i2s_file") else n, seed=seed * 1000 + i * 10 + j)))
     return out
